@@ -155,6 +155,7 @@ func (b *Broker[T]) startQueueWorkers(ctx context.Context, dist Distributor[T]) 
 			case msgCh := <-b.unsubCh:
 				subs.Delete(msgCh)
 			case fn := <-b.stats:
+				verifAt(ctx, "Broker.stats.before-reply")
 				fn(BrokerStats{
 					Subscriptions: subs.Len(),
 					BufferDepth:   dist.Len(),
@@ -192,6 +193,7 @@ func (b *Broker[T]) startQueueWorkers(ctx context.Context, dist Distributor[T]) 
 				if err != nil {
 					return
 				}
+				verifAt(ctx, "Broker.dispatch.before-keys")
 				b.dispatchMessage(ctx, subs.Keys(), msg)
 			}
 		}()
